@@ -306,6 +306,8 @@ func (s *SFlowDatagram) DecodeFromBytes(data []byte, df gopacket.DecodeFeedback)
 		df.SetTruncated()
 		return errors.New("SFlow datagram too short")
 	}
+	// the samples are appended below: do not keep those of an earlier decode
+	*s = SFlowDatagram{}
 	data, s.DatagramVersion = data[4:], binary.BigEndian.Uint32(data[:4])
 	data, agentAddressType = data[4:], SFlowIPType(binary.BigEndian.Uint32(data[:4]))
 	// agent address + subAgentID + sequence + uptime + sampleCount = agentAddr + 16.
